@@ -21,7 +21,9 @@ execution modes.  Core Lean only (linked into `model-c02`).
 | `cacheSnapshot`, `cacheRollback` | `state/statedb/storage.go` `storageCache.Snapshot/Rollback` |
 | `genesisBalances`             | `state/chain.go` `SetGenesis` (`for address, balance := range genesis.Balance`) |
 | `swapDeletes`                 | `chain/reorg.go` `swapTxMapping` (`for _, oldTx := range oldTxs { bulk.Delete }`, then one `MemPoolPut` per entry) |
-| `gather`, `validate`          | `consensus/chain/tx.go` `GatherTXs` loop; `chain/chainhandle.go` `blockExecutor.execute` loop; `NewTxExecutor` |
+| `gather`, `validate`, `Env`, `Out` | `consensus/chain/tx.go` `GatherTXs` loop; `chain/chainhandle.go` `blockExecutor.execute` loop; `NewTxExecutor` (execution mode, context, node-local inputs as an explicit argument) |
+| `produceBlock`, `validateBlock` | `GenerateBlock` / `GatherTXs` tail (`SendBlockReward(bState, chain.CoinbaseAccount)`, header coinbase) and `newBlockExecutor` (`coinbaseAccount: block.GetHeader().GetCoinbaseAccount()`) + `execute` |
+| `tryFold`                     | the loops above that `return err` from inside the `range` |
 
 A Go map whose *contents* (not its iteration order) matter is a finite partial function; where only the
 contents are compared it is modelled as a Lean function `Nat → Option α` (`Fun.upd`), so that "two maps
@@ -223,7 +225,7 @@ def collect {α : Type} (top : Nat → Option α) (order : List Nat) : List (Nat
 def IsExport {α : Type} (bufs out : List (Nat × α)) : Prop :=
   out.Perm bufs ∧ out.Pairwise (fun a b => a.1 < b.1)
 
-/-! ## the two execution modes -/
+/-! ## the two execution modes, on two nodes -/
 
 /-- What the block factory's own checks say before a candidate is executed (`checkBpTimeout`,
 `ctx.Done()`): go on, block timeout (`ErrTimeout`: stop), contract timeout (`VmTimeoutError`: stop and
@@ -232,29 +234,92 @@ inductive Pre where
   | go | tmo | vmtmo
 deriving DecidableEq, Repr
 
+/-- The class of the error `chain.NewTxExecutor` returns: `nil`; an error (`GatherTXs` skips the tx, the validator
+rejects the block); `*contract.VmTimeoutError` coming out of the VM *after* the call has started and possibly
+written (`GatherTXs` stops and keeps the block built so far). -/
+inductive Out where
+  | ok | fail | timeout
+deriving DecidableEq, Repr
+
+/-- Everything one execution of a transaction sees besides the block state and the transaction: the execution
+mode (`contract.BlockFactory` on the producer, `contract.ChainService` on a validator), whether the execution
+context has already ended when the transaction starts (`execCtx.Err() != nil`: the block-generation deadline
+passed, or the node is shutting down; a validator runs under `context.Background()`), and the node itself (its
+configuration: coinbase account, worker counts, data directory; its mempool; its wall clock). -/
+structure Env (ν : Type) where
+  producer : Bool
+  ctxDone : Bool
+  node : ν
+
 section exec
-variable {σ τ ρ : Type}
+variable {σ τ ρ ν : Type}
 
-/-- `GatherTXs`: `exec s tx = (ok, s', receipt)` is `chain.NewTxExecutor` (snapshot, `executeTx`, rollback on
-error). An error tx is skipped (`continue`), a timeout ends the loop. Returns the collected txs, the block
-state and the receipts. -/
-def gather (exec : σ → τ → Bool × σ × ρ) : σ → List (Pre × τ) → List τ × σ × List ρ
+/-- the environment of a validator: `ChainService` mode, `context.Background()` -/
+def Env.validator (n : ν) : Env ν := ⟨false, false, n⟩
+
+/-- `GatherTXs` on node `n`: `exec e s tx = (class, s', receipt)` is `chain.NewTxExecutor` (snapshot, `executeTx`,
+rollback on error). Every candidate comes with what the block factory's checks said (`Pre`) and with whether the
+context had ended when its execution started. An error tx is skipped (`continue`), a timeout — from the checks
+or from inside the VM — ends the loop. Returns the collected txs, the block state and the receipts. -/
+def gather (exec : Env ν → σ → τ → Out × σ × ρ) (n : ν) : σ → List (Pre × Bool × τ) → List τ × σ × List ρ
   | s, [] => ([], s, [])
-  | s, (.go, t) :: rest =>
-    let r := exec s t
-    if r.1 then
-      let g := gather exec r.2.1 rest
+  | s, (.go, d, t) :: rest =>
+    let r := exec ⟨true, d, n⟩ s t
+    match r.1 with
+    | .ok =>
+      let g := gather exec n r.2.1 rest
       (t :: g.1, g.2.1, r.2.2 :: g.2.2)
-    else gather exec r.2.1 rest
-  | s, (_, _) :: _ => ([], s, [])
+    | .fail => gather exec n r.2.1 rest
+    | .timeout => ([], r.2.1, [])
+  | s, (_, _, _) :: _ => ([], s, [])
 
-/-- `blockExecutor.execute` tx loop: the first failing tx rejects the block. -/
-def validate (exec : σ → τ → Bool × σ × ρ) : σ → List τ → Option (σ × List ρ)
+/-- `blockExecutor.execute` tx loop on node `n`: the first failing tx rejects the block. -/
+def validate (exec : Env ν → σ → τ → Out × σ × ρ) (n : ν) : σ → List τ → Option (σ × List ρ)
   | s, [] => some (s, [])
   | s, t :: ts =>
-    let r := exec s t
-    if r.1 then (validate exec r.2.1 ts).map (fun v => (v.1, r.2.2 :: v.2)) else none
+    let r := exec (Env.validator n) s t
+    match r.1 with
+    | .ok => (validate exec n r.2.1 ts).map (fun v => (v.1, r.2.2 :: v.2))
+    | _ => none
+
+/-- A block as far as execution reads it: the coinbase account of the header and the transactions. -/
+structure Blk (κ τ : Type) where
+  coinbase : κ
+  txs : List τ
+
+/-- `BlockGenerator.GenerateBlock` on node `n`: `GatherTXs`, then `SendBlockReward(bState, chain.CoinbaseAccount)`
+with the node's *own* configured account `cb n`, which is also written into the header (`types.NewBlock(…,
+chain.CoinbaseAccount, …)`). -/
+def produceBlock {κ : Type} (exec : Env ν → σ → τ → Out × σ × ρ) (reward : κ → σ → σ) (cb : ν → κ) (n : ν) (s : σ)
+    (cands : List (Pre × Bool × τ)) : Blk κ τ × σ × List ρ :=
+  let g := gather exec n s cands
+  (⟨cb n, g.1⟩, reward (cb n) g.2.1, g.2.2)
+
+/-- `newBlockExecutor` + `execute` on node `n'`: the tx loop, then `SendBlockReward(bState, coinbaseAccount)` with
+`coinbaseAccount: block.GetHeader().GetCoinbaseAccount()` — the header's account, not the node's. -/
+def validateBlock {κ : Type} (exec : Env ν → σ → τ → Out × σ × ρ) (reward : κ → σ → σ) (n' : ν) (s : σ)
+    (b : Blk κ τ) : Option (σ × List ρ) :=
+  (validate exec n' s b.txs).map (fun v => (reward b.coinbase v.1, v.2))
 
 end exec
+
+/-! ## loops that leave early, sequences of loops -/
+
+/-- A `range` whose body returns the error of a failing entry (`stateBuffer.stage`, `StateDB.Commit`,
+`storageCache.Rollback`, the second loop of `vpr.apply`, `SetGenesis`), literally: entries are visited in `order`
+until one fails; `none` = the error was returned (the caller then abandons the batch / the block). Whether an
+entry fails depends on the entry only (a marshalling or database error of that entry). -/
+def tryFold {α β : Type} (bad : α → Bool) (f : β → α → β) : β → List α → Option β
+  | b, [] => some b
+  | b, a :: as => if bad a then none else tryFold bad f (f b a) as
+
+/-- One map iteration of a history: the loop body `run` and the iteration order the runtime happened to produce
+this time. -/
+structure Visit (σ κ : Type) where
+  run : σ → List κ → σ
+  order : List κ
+
+/-- A history of map iterations: each loop of each block, in program order, each with its own iteration order. -/
+def runVisits {σ κ : Type} (s : σ) (vs : List (Visit σ κ)) : σ := vs.foldl (fun s v => v.run s v.order) s
 
 end Aergo.Determ
